@@ -39,6 +39,8 @@ def oracle(case, recs, out, stats):
     for k, rec in enumerate(recs):
         if rec["op"][0] != "eval":
             plain.apply_op(rec["op"], rec["impl"] == "ok")
+            if rec["op"][0] in ("copycell", "copyspace") and rec["impl"] == "ok":
+                _fresh_copy_holds_inputs_only(case, k, recs, out, stats)
             continue
         a = rec["impl"]
         if not a.startswith("ok"):
@@ -72,6 +74,29 @@ def oracle(case, recs, out, stats):
                      X.case_json(dict(case, ops=case["ops"][:k + 1])), key=key)
     _spellings(case, out, stats)
     return hit_cache and called
+
+
+def _fresh_copy_holds_inputs_only(case, k, recs, out, stats):
+    """an element nobody calculated or assigned in the new space holds no value there: right after a copy is taken, the
+    copy holds the ASSIGNED values of its source (as inputs) and nothing else - whatever the source had calculated"""
+    from ..execworld import COPY_BASE
+    op = recs[k]["op"]
+    before = recs[k - 1]["obs"]["values"][0].split()[1:] if k else []
+    after = recs[k]["obs"]["values"][0].split()[1:]
+    src_inputs = {x.split("=")[0]: x.split("=")[1] for x in before if x.endswith("I")}
+    for x in after:
+        node, v = x.split("=")
+        cid = int(node.split("[")[0])
+        src = int(op[1]) if op[0] == "copycell" and cid == int(op[3]) else cid - COPY_BASE if (
+            op[0] == "copyspace" and cid >= COPY_BASE) else None
+        if src is None:
+            continue
+        stats["oracle_copied_elements"] += 1
+        if src_inputs.get("%d[%s" % (src, node.split("[", 1)[1])) != v:
+            out.fail("right after %s the copy holds %s, which nobody assigned (assigned values of the source: %s)" % (
+                " ".join(op), x, sorted(n for n in src_inputs if n.startswith("%d[" % src))),
+                X.case_json(dict(case, ops=case["ops"][:k + 1])))
+            return
 
 
 def _fresh_eval(case, k):
